@@ -55,6 +55,11 @@ _RE_MULTIPOINT_WKT = re.compile(
     r'^MULTIPOINT' + _RE_ZM_STR + _RE_LINEAR_RING_STR + '$',
     flags=re.IGNORECASE
 )
+# The OGC form with one parenthesised coordinate per point, e.g. 'MULTIPOINT ((0 0), (1 1))'
+_RE_MULTIPOINT_NESTED_WKT = re.compile(
+    r'^MULTIPOINT' + _RE_ZM_STR + r'\((?:\s?\(\s?' + _RE_COORD_STR + r'\s?\)\s?\,?)+\)$',
+    flags=re.IGNORECASE
+)
 _RE_MULTIPOLYGON_WKT = re.compile(
     r'^MULTIPOLYGON' + _RE_ZM_STR + r'\((' + _RE_LINEAR_RINGS_STR + r',?\s?)+\)$',
     flags=re.IGNORECASE
